@@ -454,7 +454,7 @@ def write_replay(prop, case, note):
         f.write("# implementation observed: %s\n" % case["obs"][:2000])
         f.write("# model predicts:          %s\n" % case["model"][:2000])
         f.write("# monitor clauses violated: %s\n" % case["detail"])
-        f.write("# re-run: bin/check %s --replay %s\n" % (prop, os.path.relpath(path, VERIF)))
+        f.write("# re-run: bin/check %s --replay %s\n" % (case.get("sub", prop), os.path.relpath(path, VERIF)))
         f.write(case["input"] + "\n")
     return os.path.relpath(path, VERIF)
 
@@ -591,6 +591,19 @@ def main(argv):
         results, stats, errors = exec_cases(prop, tier, seed, n, workers, "cases", log)
         for e in errors:
             corr_broken.append("execution error: " + e)
+        # sub-checks: further harness plug-ins / judges that serve the same property
+        # (e.g. a lower-level model of one component); their cases are folded in
+        for sub in cfg.get("sub", []):
+            scfg = PROPS.get(sub, {})
+            sn = scfg.get("n_quick", 500) if tier == "quick" else scfg.get("n_thorough", 20000)
+            corpus_res += [dict(r, cls=sub + ":" + r.get("cls", "")) for r in run_corpus(sub, tier)]
+            r2, st2, e2 = exec_cases(sub, tier, seed, sn, workers, "cases", log)
+            results += [dict(r, cls=sub + ":" + r.get("cls", ""), sub=sub) for r in r2]
+            for c, v in st2.get("classes", {}).items():
+                stats["classes"][sub + ":" + c] = v
+            stats["distinct_nontrivial"] = stats.get("distinct_nontrivial", 0) + st2.get("distinct_nontrivial", 0)
+            for e in e2:
+                corr_broken.append("execution error (%s): %s" % (sub, e))
     allres = corpus_res + results
     viols = [r for r in allres if r["violates"]]
     diffs = [r for r in allres if not r["agree"] and not r["violates"]]
@@ -621,7 +634,8 @@ def main(argv):
             bysig.setdefault(signature(prop, r), []).append(r)
         for sig, rs in list(bysig.items())[:4]:
             rep = min(rs[:50], key=lambda r: len(r["input"]))
-            small = shrink(prop, rep, budget_s=30 if tier == "quick" else 120, tier=tier)
+            small = shrink(rep.get("sub", prop), rep, budget_s=30 if tier == "quick" else 120, tier=tier)
+            small["sub"] = rep.get("sub", prop)
             sig2 = signature(prop, small)
             kn = [k for k in known if k["prop"] == prop and k["sig"] in (sig, sig2)]
             if kn:
